@@ -605,15 +605,17 @@ def classifyValidation (l : Line) : Option LineMeas :=
              main := { criterion := totalName, unit := ms, value := .int 0 } }
     | none => none
 
-/-- an actors line whose counters `int()` refuses -/
-def actorsOverlong (l : Line) : Bool :=
+/-- an actors line with a counter of more than `limit` digits -/
+def actorsOverlongWith (limit : Nat) (l : Line) : Bool :=
   match reValidation.pmatch l with
   | some _ => false
   | none =>
     match reActors.pmatch l with
-    | some c => intMaxStrDigits < (capD c 1).length || intMaxStrDigits < (capD c 2).length ||
-                intMaxStrDigits < (capD c 3).length
+    | some c => limit < (capD c 1).length || limit < (capD c 2).length || limit < (capD c 3).length
     | none => false
+
+/-- an actors line whose counters `int()` refuses -/
+def actorsOverlong (l : Line) : Bool := actorsOverlongWith intMaxStrDigits l
 
 /-- `jmh_adapter.py:66-70` -/
 def classifyJMHWith (re : Re) (l : Line) : Option (List Char × Val) :=
